@@ -1,4 +1,4 @@
-import Pcore.Proofs.LatSoundMain
+import Pcore.Proofs.LatInfer
 import Pcore.Proofs.LatMono
 set_option linter.unusedSimpArgs false
 /-!
@@ -17,6 +17,8 @@ Full statement / proved / missing
   `def … : Prop`, kept visible.
 * PROVED (unbounded): `C04_ptype_scalar` / `C04_dtype_scalar` — the law for every value that is not an Array or a Hash (scalars, regexps,
   binaries, timespans, types used as values — through reflexivity C03_refl —, object instances, Sensitive of those);
+  `C04_dtype_struct` — the second law for arbitrarily nested, heterogeneous arrays and hashes keyed by pairwise different non-empty strings
+  (the Tuple / Struct shape of `DetailedValueType`, where no `commonType` is involved), for both settings of the exempt rule;
   `C04_accepts_sound_partial` — the third law from C01_sound_partial (rule off, fragment `Ty.Frag`) for any value whose detailed type it
   is an instance of; `C04_common_unit` (Unit never absorbs: the repaired rule), `C04_common_accepts_left/right` — the first two branches
   of `commonType` are upper bounds given reflexivity; `C04_common_tail` — the Numeric/ScalarData/Scalar/Data/RichData/Any tail is an upper bound.
@@ -24,8 +26,10 @@ Full statement / proved / missing
   not accept Float[-Inf,Inf]); `C04_accepts_complete_fails_scalar` (Scalar has Timespan values but rejects Timespan types),
   `C04_accepts_complete_fails_object` (Object has every type value as an instance but rejects Type[..]), `C04_accepts_complete_fails_hash`
   (the detailed type of a hash with non-string keys is a commonType fold).
-* missing: the first two laws for Arrays and Hashes (the fold invariant "every element seen so far is an instance of the accumulator" needs
-  `C04_common` for all merges and C01 on inferred types, which contain Type[..] and Data/RichData — outside `C01_sound_partial`'s fragment);
+  `C04_ptype_of_common` — the first law for ALL values, conditional on the obligation `CommonUB` (commonType is an upper bound within the
+  side conditions of C01): the fold invariant "every element seen so far is an instance of the accumulator", carried by C01;
+* missing: `CommonUB` in full (so the first law for Arrays and Hashes is conditional), the second law for hashes with non-string /
+  empty-string keys;
   `C04_common` for the structural merges (Enum/String/Array/Tuple/Variant …); `C04_generalize`.  All six laws are evaluated on the
   implementation for every generated case.
 -/
@@ -42,36 +46,28 @@ def C04_accepts_sound_full : Prop :=
 def C04_accepts_complete_full : Prop :=
   ∀ (cfg : Cfg) (t : Ty) (v : Val), Ty.WF cfg t → Ty.Ref t → v.OK → inst cfg true t v = true → asg cfg true t (dtype cfg true v) = true
 
-/-- values that are neither Array nor Hash (hereditarily through Sensitive); types used as values are well-formed and alias-free -/
-def Val.Scalarish (cfg : Cfg) : Val → Prop
-  | .array _ | .hash _ => False
-  | .sensitive v => Val.Scalarish cfg v
-  | .typ t => Ty.WF cfg t ∧ t.NoAlias
-  | _ => True
+/-- first and second law for every value that is neither an Array nor a Hash (`Val.Leafy`: scalars, regexps, binaries, timespans, object
+    instances, types used as values — through reflexivity C03_refl —, Sensitive of those) -/
+theorem C04_ptype_scalar (cfg : Cfg) (sfh : Bool) (v : Val) (h : Val.Leafy cfg v) :
+    inst cfg sfh (ptype cfg sfh v) v = true := ptype_leafy cfg sfh v h
 
-theorem C04_ptype_scalar (cfg : Cfg) (sfh : Bool) (v : Val) (h : Val.Scalarish cfg v) :
-    inst cfg sfh (ptype cfg sfh v) v = true := by
-  match v, h with
-  | .sensitive v, h => unfold ptype; unfold inst; exact C04_ptype_scalar cfg sfh v h
-  | .typ t, h => unfold ptype; unfold inst; exact asg_refl cfg sfh t.w t (Nat.le_refl _) h.1 h.2
-  | .obj p, _ => unfold ptype; unfold inst; simp [isPrefix_refl]
-  | .undef, _ => unfold ptype; unfold inst; rfl
-  | .dflt, _ => unfold ptype; unfold inst; rfl
-  | .bool b, _ => unfold ptype; unfold inst; simp
-  | .int i, _ => unfold ptype; unfold inst; simp [Rng.contains]
-  | .float f, _ => unfold ptype; unfold inst; simp
-  | .str s, _ => unfold ptype; unfold inst; simp
-  | .regexp s, _ => unfold ptype; unfold inst; simp
-  | .binary s, _ => unfold ptype; unfold inst; rfl
-  | .tspan n, _ => unfold ptype; unfold inst; simp [Rng.contains]
-termination_by v.w
-decreasing_by simp [Val.w]
+theorem C04_dtype_scalar (cfg : Cfg) (sfh : Bool) (v : Val) (h : Val.Leafy cfg v) :
+    inst cfg sfh (dtype cfg sfh v) v = true :=
+  dtype_structy cfg sfh v.w v (Nat.le_refl _) (Val.Structy.leaf v h)
 
-theorem C04_dtype_scalar (cfg : Cfg) (sfh : Bool) (v : Val) (h : Val.Scalarish cfg v) :
-    inst cfg sfh (dtype cfg sfh v) v = true := by
-  have : dtype cfg sfh v = ptype cfg sfh v := by
-    cases v <;> first | (exact absurd h id) | (unfold dtype; rfl)
-  rw [this]; exact C04_ptype_scalar cfg sfh v h
+/-- second law, unbounded, for every value built from arrays (any nesting, heterogeneous) and hashes keyed by pairwise different
+    non-empty strings over such leaves: the detailed type (Tuple of detailed types, Struct of detailed member types with the
+    Optional-key rule of `NewStructElement`) contains the value.  No `commonType` is involved for these values. -/
+theorem C04_dtype_struct (cfg : Cfg) (sfh : Bool) (v : Val) (h : Val.Structy cfg v) :
+    inst cfg sfh (dtype cfg sfh v) v = true := dtype_structy cfg sfh v.w v (Nat.le_refl _) h
+
+/-- first law for ALL values (nested heterogeneous arrays and hashes included), rule off, GIVEN the obligation `CommonUB` on `commonType`
+    (it is an upper bound of its arguments and stays within the side conditions of C01): the fold invariant of `privateReducedType`
+    — "every element seen so far is an instance of the accumulator" — carried through by C01 (soundness), which is exactly where a
+    `commonType` that returns the wrong argument breaks the proof.  `CommonUB` itself is proved only in part (`C04_common_*`). -/
+theorem C04_ptype_of_common (cfg : Cfg) (hl : ∀ s, (cfg.lower s).length = s.length) (U : CommonUB cfg) (v : Val)
+    (ok : v.OK) (tv : Val.TyOK cfg v) : inst cfg false (ptype cfg false v) v = true :=
+  (ptype_inst cfg hl U v.w v (Nat.le_refl _) ok tv).1
 
 /-- third law, from C01: what accepts the detailed type contains the value (rule off, fragment of `C01_sound_partial`) -/
 theorem C04_accepts_sound_partial (cfg : Cfg) (hl : ∀ s, (cfg.lower s).length = s.length) (t : Ty) (v : Val)
@@ -130,7 +126,20 @@ theorem C04_accepts_complete_fails_object :
   · simp [dtype, ptype, asg, asgRecv, sameNullary]
 
 /-! non-vacuity -/
-example : Val.Scalarish idCfg4 (.sensitive (.typ (.array (.int ⟨0, 5⟩) ⟨1, 2⟩))) := by
-  simp [Val.Scalarish, Ty.WF, Ty.NoAlias]
+example : Val.Leafy idCfg4 (.sensitive (.typ (.array (.int ⟨0, 5⟩) ⟨1, 2⟩))) := by
+  simp [Val.Leafy, Ty.WF, Ty.TF]
+example : Val.Structy idCfg4 (.array [.int 1, .hash [(.str "a", .array [.str "x", .undef]), (.str "b", .undef)]]) := by
+  refine Val.Structy.array _ ?_
+  intro x hx; simp at hx
+  rcases hx with rfl | rfl
+  · exact Val.Structy.leaf _ trivial
+  · refine Val.Structy.hash _ ?_ ?_ ?_
+    · intro n; simp [List.countP_cons, keyIs, keyIsStr]; split <;> split <;> (first | omega | (subst_vars; simp_all))
+    · intro e he; simp at he; rcases he with rfl | rfl <;> simp
+    · intro e he; simp at he
+      rcases he with rfl | rfl
+      · refine Val.Structy.array _ ?_
+        intro y hy; simp at hy; rcases hy with rfl | rfl <;> exact Val.Structy.leaf _ trivial
+      · exact Val.Structy.leaf _ trivial
 
 end Pcore.Lat
